@@ -758,23 +758,28 @@ class WorkflowStateMachine(object):
             workflow_state.status = new_workflow_status
 
         # If the final workflow status here is completed, then ensure there is no unreachable
-        # barrier task(s). A barrier task is unreachable if the workflow is completed but then one
-        # or more criteria for the task is satisified. In this case, log the task and fail the
-        # workflow to notify that the execution is incomplete but unable to proceed.
+        # barrier task(s).
         if (
             workflow_state.status in statuses.COMPLETED_STATUSES
             and workflow_state.status != statuses.CANCELED
         ):
-            unreachable_barriers = workflow_state.get_unreachable_barriers()
+            cls.fail_on_unreachable_barriers(workflow_state)
 
-            # If there are unreachable barrier tasks, then change workflow status to failed
-            # and write an error log for each case.
-            if unreachable_barriers:
-                workflow_state.status = statuses.FAILED
+    @classmethod
+    def fail_on_unreachable_barriers(cls, workflow_state):
+        # A barrier task is unreachable if the workflow is completed but then one or more
+        # criteria for the task is satisified. In this case, log the task and fail the
+        # workflow to notify that the execution is incomplete but unable to proceed.
+        unreachable_barriers = workflow_state.get_unreachable_barriers()
 
-                for entry in unreachable_barriers:
-                    e = exc.UnreachableJoinError(entry["id"], entry["route"])
-                    workflow_state.conductor.log_error(e, task_id=entry["id"], route=entry["route"])
+        # If there are unreachable barrier tasks, then change workflow status to failed
+        # and write an error log for each case.
+        if unreachable_barriers:
+            workflow_state.status = statuses.FAILED
+
+            for entry in unreachable_barriers:
+                e = exc.UnreachableJoinError(entry["id"], entry["route"])
+                workflow_state.conductor.log_error(e, task_id=entry["id"], route=entry["route"])
 
     @classmethod
     def add_context_to_workflow_event(cls, workflow_state, wf_ex_event):
@@ -828,6 +833,11 @@ class WorkflowStateMachine(object):
         # Assign new workflow status if there is change.
         if current_workflow_status != new_workflow_status:
             workflow_state.status = new_workflow_status
+
+        # If the workflow is completed by this event (i.e. a paused workflow that has nothing
+        # left to run is resumed), then ensure there is no unreachable barrier task(s).
+        if workflow_state.status == statuses.SUCCEEDED:
+            cls.fail_on_unreachable_barriers(workflow_state)
 
     @classmethod
     def process_event(cls, workflow_state, event):
